@@ -267,6 +267,11 @@ class TimedToSequential(engines.engine.Engine, CompilerMixin):
             new_kind.set_effects_kind("INTERPRETED_FUNCTIONS_IN_BOOLEAN_ASSIGNMENTS")
             new_kind.set_effects_kind("INTERPRETED_FUNCTIONS_IN_NUMERIC_ASSIGNMENTS")
             new_kind.set_effects_kind("INTERPRETED_FUNCTIONS_IN_OBJECT_ASSIGNMENTS")
+        if problem_kind.has_increase_effects() or problem_kind.has_decrease_effects():
+            # an end increase/decrease of a fluent assigned at start is rewritten as an
+            # assignment whose value mentions the fluent
+            new_kind.set_effects_kind("FLUENTS_IN_NUMERIC_ASSIGNMENTS")
+            new_kind.set_problem_type("GENERAL_NUMERIC_PLANNING")
         return new_kind
 
     def get_effects_data_structures(
